@@ -482,7 +482,7 @@ def conservation(ctx, case, L, R, entries, arr, aoh):
                 if k in r and isinstance(k, str) and k.isalnum():
                     walk(l[k], r[k], path + "/" + k)
         elif isinstance(l, list) and isinstance(r, list) and not yp.is_set(l) and not yp.is_set(r):
-            scal = all(not yp.is_container(e) and e is not None for e in list(l) + list(r))
+            scal = all(not yp.is_container(e) for e in list(l) + list(r))        # null elements are values too
             hashes = len(l) and len(r) and all(isinstance(e, dict) for e in list(l) + list(r))
             if (scal and (len(l) or len(r))) or (hashes and ((aoh == "position" and arr == "position") or aoh == "key")):
                 pre = segs_of(path) if path else []
